@@ -12,9 +12,22 @@ file has the length of the file without attribute (nothing allocated), the datas
 attribute message (type 12) that ends with NAME NUL datatype dataspace VALUE, the header chunk size grew by 4 + message size.
 Generated: every value kind of attr_of_kind (scalars int8..uint64, float32/64, slices []int32 []int64 []float32 []float64,
 strings), attribute names of arbitrary bytes (NUL and '/' included) up to the longest the 255-byte header chunk holds
-(boundary 255 included), datasets as in c01file (smaller)."""
-import concurrent.futures as cf, os, struct, time
+(boundary 255 included), datasets as in c01file (smaller).
+
+Kind "dense" (coq/theories/Props/C02FileDense.v, Model/FileImageDense.v `image_v2_dense`): the same with a LIST of WriteAttribute
+calls (harness subcommand c02dense) long enough for the library to move the attributes to dense storage (the ninth attribute, or
+the first whose message does not fit the 255-byte header chunk any more): fractal heap header, 64 KiB direct block, 4 KiB
+B-tree v2 leaf and B-tree v2 header behind the old end of file, the dataset header rewritten with the Attribute Info message
+(and the tail of the old, longer header left behind it).  The ~72 KB file travels to Coq as hex pieces and runs of zero bytes;
+Coq evaluates `image_dense_case_ok` (whole-file byte equality).  Independent of the model, Python checks on the library's file
+what the theorem concludes: walking the Attribute Info message -> B-tree header -> leaf records (ascending name hash) -> heap
+ids -> direct block gives exactly the written (name, value) pairs.  Generated: 1..30 attributes of all value kinds, names of
+arbitrary bytes (NUL included) with pairwise distinct names and name hashes, 0..4 compact attributes before the transition
+(on a dataset created by CreateDataset the 255-byte header chunk is full before the ninth attribute), one attribute too large
+for the header (dense from the first call on)."""
+import concurrent.futures as cf, os, re, struct, time
 import vlib
+import h5spec
 
 DTYPES = ["int8", "int16", "int32", "int64", "uint8", "uint16", "uint32", "uint64", "float32", "float64"]
 ESZ = {"int8": 1, "int16": 2, "int32": 4, "int64": 8, "uint8": 1, "uint16": 2, "uint32": 4, "uint64": 8, "float32": 4, "float64": 8}
@@ -181,8 +194,204 @@ def run_unit(ctx, n=None):
         samples.append(dict(case=dict(w, data=w["data"][:64]), file_len=len(f)))
     distinct = {(c["name"], c["dtype"], tuple(c["dims"]), c["data"], c["aname"], c["akind"], c["raw"]) for c, _ in kept}
     chunks = sorted({f[DATA_ADDR + len(c["data"]) + 6] for (c, _), f in zip(kept, files)})
-    return dict(violations=viol, known=[], evaluations=len(cases), distinct=len(distinct), samples=samples,
-                rule="whole file compared byte for byte with image_v2_attr; distinct = distinct (name, dtype, dims, data, aname, kind, value)",
+    dense = run_dense(ctx)
+    return dict(violations=viol + dense.pop("violations"), known=[], evaluations=len(cases) + dense["evaluations"],
+                distinct=len(distinct) + dense["distinct"], samples=samples + dense.pop("samples"),
+                rule="whole file compared byte for byte with image_v2_attr (one compact attribute) / image_v2_dense (dense storage); "
+                     "distinct = distinct (name, dtype, dims, data, attributes (name, kind, value))",
                 kinds=sorted({KINDS[c["akind"]] for c in cases}), dtypes=sorted({c["dtype"] for c in cases}),
                 aname_lengths=sorted({len(c["aname"]) for c in cases})[:40], header_chunk_sizes=chunks[:60],
-                wall=round(time.time() - t0, 1))
+                dense=dense, wall=round(time.time() - t0, 1))
+
+
+# ------------------------------------------------------------------------------------------------ kind "dense"
+
+CORR_DENSE = ("Model.FileImageDense.image_v2_dense (image_v2 + dataset header with the Attribute Info message over the old compact "
+              "header + fractal heap header + 64 KiB direct block + B-tree v2 leaf + B-tree v2 header, from FHeap.encode_header/"
+              "encode_dblock, BT2.encode_leaf/encode_header, enc_attribute, enc_attrinfo) vs the whole file written by "
+              "CreateForWrite/CreateDataset/Write/WriteAttribute x n/Close")
+HEADER_DENSE = "From HV Require Import Base.Prelude Model.FileImage Model.FileImageAttr Model.FileImageDense.\n"
+DENSE_EXTRA = 146 + 65536 + 4096 + 38
+_ZRUN = re.compile(rb"\0{48,}")
+
+
+def pieces_literal(d):
+    """bytes -> Coq literal of type list piece: hex strings of at most 1500 bytes, runs of >= 48 zero bytes as PZ n"""
+    out, pos = [], 0
+
+    def hexes(b):
+        for i in range(0, len(b), 1500):
+            out.append('PH "%s"%%string' % b[i:i + 1500].hex())
+    for m in _ZRUN.finditer(d):
+        if m.start() > pos:
+            hexes(d[pos:m.start()])
+        out.append("PZ %d" % (m.end() - m.start()))
+        pos = m.end()
+    if pos < len(d):
+        hexes(d[pos:])
+    return "[" + "; ".join(out) + "]"
+
+
+def value_bytes(k, raw):
+    return raw + b"\0" if k == 14 else raw
+
+
+def compact_prefix(c):
+    """writeAttribute's dispatch: how many leading attributes stay in the object header"""
+    used, k = base_chunk(c["dtype"], len(c["dims"])), 0
+    for (an, ak, raw) in c["attrs"]:
+        need = 4 + attr_msg_len(ak, an, raw)
+        if k >= 8 or used + need > 255:
+            break
+        used, k = used + need, k + 1
+    return k
+
+
+def gen_dense_cases(rng, n):
+    cases = []
+    fixed = [(9, "i32"), (5, "i32"), (12, None), (30, None), (1, "big"), (9, "u8")]
+    while len(cases) < n:
+        spec = fixed[len(cases)] if len(cases) < len(fixed) else (rng.choice([9, 9, 10, 11, 13, 16, 20, 25, 30, rng.randint(2, 30)]), None)
+        na, mode = spec
+        dt = rng.choice(DTYPES)
+        dims = [rng.choice([1, 2, 3, 4, 5]) for _ in range(rng.choice([1, 1, 2, 3]))]
+        tot = 1
+        for d in dims:
+            tot *= d
+        attrs, names, hashes = [], set(), set()
+        pool = rng.choice([b"abcdefghijklmnopqrstuvwxyz_0123456789", bytes(range(1, 256)), bytes(range(0, 256))])
+        while len(attrs) < na:
+            if mode == "i32" or mode == "u8":
+                an, k = b"a%02d" % len(attrs), (2 if mode == "i32" else 4)
+                raw = rand_raw(rng, k)
+            elif mode == "big":          # one attribute too large for the header: dense storage from the first call on
+                an, k, raw = b"big", 11, rand_bytes(rng, 8 * 40)
+            else:
+                an = rand_bytes(rng, rng.choice([1, 2, 3, 5, 8, 13, rng.randint(1, 40)]), pool=pool)
+                k = rng.randrange(len(KINDS))
+                raw = rand_raw(rng, k)
+                if k == 14 and rng.random() < 0.3:
+                    raw = rand_bytes(rng, rng.choice([20, 60, 200]), pool=b"abcxyz ")
+            h = h5spec.lookup3(an)
+            if an in names or h in hashes:
+                continue
+            names.add(an)
+            hashes.add(h)
+            attrs.append((an, k, raw))
+        c = dict(name=rand_bytes(rng, rng.choice([1, 2, 5]), pool=b"abcdefgh"), dtype=dt, dims=dims, data=rand_bytes(rng, tot * ESZ[dt]),
+                 attrs=attrs)
+        if compact_prefix(c) < len(attrs):
+            cases.append(c)
+    return cases
+
+
+def _eval_dense_chunk(args):
+    k, cases, files = args
+    v = [HEADER_DENSE]
+    terms = []
+    for c, f in zip(cases, files):
+        al = "[" + "; ".join("(%s, %d, %s)" % (lit(an), ak, lit(raw)) for (an, ak, raw) in c["attrs"]) + "]"
+        terms.append("(%s, %d, %s, %s, %s, %s)" % (lit(c["name"]), DTYPES.index(c["dtype"]), vlib.cNlist(c["dims"]), lit(c["data"]), al,
+                                                   pieces_literal(f)))
+    v.append("Definition cs : list (list string * N * list N * list string * list (list string * N * list string) * list piece) := [\n%s].\n"
+             % ";\n".join(terms))
+    v.append("Definition bad := Eval vm_compute in mismatches image_dense_case_ok cs.\nPrint bad.\n")
+    out = vlib.coq_eval("".join(v), "c02dense_%d" % k)
+    return [k + i for i in vlib.parse_nlist(out, "bad")]
+
+
+def py_spec_dense(c, f):
+    """the conclusion of C02_file_dense_attributes_roundtrip read off the library's file by a walk that does not use the model"""
+    probs = []
+    n = len(c["data"])
+    if f[DATA_ADDR:DATA_ADDR + n] != c["data"]:
+        probs.append("the written data is not at address %d" % DATA_ADDR)
+    fh = DATA_ADDR + n + 262
+    if len(f) != fh + DENSE_EXTRA:
+        probs.append("file length %d, expected %d (end of the header reserve + heap header 146 + block 65536 + leaf 4096 + header 38)"
+                     % (len(f), fh + DENSE_EXTRA))
+        return probs
+    if struct.unpack_from("<Q", f, 28)[0] != len(f):
+        probs.append("superblock end-of-file address differs from the file length")
+    h = DATA_ADDR + n
+    if f[h:h + 6] != b"OHDR\x02\x00":
+        return probs + ["no version 2 object header behind the data"]
+    p, end, info = h + 7, h + 7 + f[h + 6], None
+    while p + 4 <= end:
+        ty, sz = f[p], struct.unpack_from("<H", f, p + 1)[0]
+        if ty == 12:
+            probs.append("a compact attribute message is left in the header after the transition")
+        if ty == 21:
+            info = f[p + 4:p + 4 + sz]
+        p += 4 + sz
+    if info is None or len(info) != 18 or info[:2] != b"\0\0":
+        return probs + ["no Attribute Info message (version 0, flags 0, two addresses) in the dataset header"]
+    ha, ba = struct.unpack_from("<QQ", info, 2)
+    if ha != fh or ba != fh + 146 + 65536 + 4096:
+        probs.append("Attribute Info addresses (%d, %d), expected (%d, %d)" % (ha, ba, fh, fh + 146 + 65536 + 4096))
+        return probs
+    if f[ha:ha + 4] != b"FRHP" or f[ba:ba + 4] != b"BTHD":
+        return probs + ["no fractal heap header / B-tree v2 header at the addresses of the Attribute Info message"]
+    root, nrec = struct.unpack_from("<QH", f, ba + 16)
+    db = struct.unpack_from("<Q", f, ha + 132)[0]
+    if f[root:root + 4] != b"BTLF" or f[db:db + 4] != b"FHDB":
+        return probs + ["no B-tree v2 leaf / direct block at the root addresses"]
+    if nrec != len(c["attrs"]):
+        probs.append("the index holds %d records, %d attributes were written" % (nrec, len(c["attrs"])))
+    got, hs = [], []
+    for i in range(nrec):
+        r = f[root + 6 + 11 * i:root + 6 + 11 * i + 11]
+        hs.append(struct.unpack_from("<I", r, 0)[0])
+        off, ln = struct.unpack_from("<H", r, 5)[0], int.from_bytes(r[7:10], "little")
+        m = f[db + 15 + off:db + 15 + off + ln]
+        nsz, dsz, ssz = struct.unpack_from("<HHH", m, 2)
+        got.append((hs[-1], m[9:9 + nsz - 1], m[9 + nsz + dsz + ssz:]))
+    if hs != sorted(hs):
+        probs.append("the leaf records are not in ascending name-hash order")
+    want = sorted((h5spec.lookup3(an), an, value_bytes(ak, raw)) for (an, ak, raw) in c["attrs"])
+    if got != want:
+        probs.append("index -> heap walk returns %d attributes that differ from the %d written (hash order)" % (len(got), len(want)))
+    return probs
+
+
+def run_dense(ctx, n=None):
+    H, rng = ctx.harness, ctx.rng
+    n = n or (60 if ctx.tier == "thorough" else 12)
+    builddir = os.path.join(vlib.BUILD, "scratch")
+    os.makedirs(builddir, exist_ok=True)
+    t0 = time.time()
+    cases = gen_dense_cases(rng, n)
+    wire = [dict(name=c["name"].hex(), dtype=c["dtype"], dims=c["dims"], data=c["data"].hex(), dir=builddir,
+                 attrs=[dict(name=an.hex(), kind=KINDS[ak], val=raw.hex()) for (an, ak, raw) in c["attrs"]]) for c in cases]
+    res = vlib.run_harness(H, "c02dense", wire)
+    viol, kept, files, samples = [], [], [], []
+    for c, w, r in zip(cases, wire, res):
+        w = {k: v for k, v in w.items() if k != "dir"}
+        if not r.get("ok"):
+            viol.append(dict(what="c02file/dense: the library refused or failed an admissible create/write/attribute list/close: %s" % str(r)[:300],
+                             failing_input=w, impl=r))
+            continue
+        f = bytes.fromhex(r["file"])
+        probs = py_spec_dense(c, f)
+        if probs:
+            viol.append(dict(what="c02file/dense: " + probs[0], failing_input=w, impl=dict(file_len=len(f)), problems=probs))
+            continue
+        kept.append((c, w))
+        files.append(f)
+    t1 = time.time()
+    bad = []
+    if kept:
+        parts = [(k, [c for c, _ in kept[k:k + 2]], files[k:k + 2]) for k in range(0, len(kept), 2)]
+        with cf.ThreadPoolExecutor(max_workers=8) as ex:
+            bad = sorted(i for r in ex.map(_eval_dense_chunk, parts) for i in r)
+    for i in bad:
+        c, w = kept[i]
+        viol.append(dict(what="c02file/dense: the file written by the library differs from Model.FileImageDense.image_v2_dense", case=w,
+                         impl=dict(file=pieces_literal(files[i])[:20000]), nofail=True, correspondence=CORR_DENSE))
+    for (c, w), f in list(zip(kept, files))[:2]:
+        samples.append(dict(case=dict(w, data=w["data"][:64], attrs=w["attrs"][:3], nattrs=len(w["attrs"])), file_len=len(f)))
+    distinct = {(c["name"], c["dtype"], tuple(c["dims"]), c["data"], tuple(c["attrs"])) for c, _ in kept}
+    return dict(violations=viol, evaluations=len(cases), distinct=len(distinct), samples=samples,
+                nattrs=sorted({len(c["attrs"]) for c in cases}), compact_before_transition=sorted({compact_prefix(c) for c in cases}),
+                kinds=sorted({KINDS[ak] for c in cases for (_, ak, _) in c["attrs"]}),
+                wall_go=round(t1 - t0, 1), wall_coq=round(time.time() - t1, 1))
